@@ -125,7 +125,19 @@ pub fn check(compiled: &CompiledProgram, commit: &CommitNode<Elements>, sites: &
                         for sj in samples {
                             let v = val_from_json(sj, &ty)?;
                             let sv = StructuralValue::from(&v);
-                            let ok = match tc.map_value(&sv) {
+                            // a panic inside the reconstruction is an outcome of the debug-symbol machinery (C14), not of a text entry point
+                            let mapped = match std::panic::catch_unwind(std::panic::AssertUnwindSafe(|| tc.map_value(&sv))) {
+                                Ok(m) => m,
+                                Err(p) => {
+                                    let msg = p.downcast_ref::<String>().cloned()
+                                        .or_else(|| p.downcast_ref::<&str>().map(|s| s.to_string()))
+                                        .unwrap_or_default();
+                                    issues.push(json!({"at":"debug","what":"map_value_panic",
+                                        "msg": format!("marker {i} ({kind} `{}`): reconstructing value {v} panicked: {msg}", tc.text())}));
+                                    continue;
+                                }
+                            };
+                            let ok = match mapped {
                                 Some(Either::Right(dv)) => *kind == "dbg" && dv.value() == &v && &strip_ws(dv.text()) == text,
                                 Some(Either::Left(fc)) => match fc.name() {
                                     FallibleCallName::UnwrapLeft(x) => *kind == "unwrap_left" && x == &v,
